@@ -9,7 +9,7 @@ PYVC_NOTE = ("Trusted base: pyvc (this repo's VC generator: real function ASTs r
 CHECKS = {
  "C17": ("proof", "contract-based deductive verification: loop-free proof harnesses over the real shm api codec (segment algebra + z3), generated per message class from the source",
          "For every message class found in cascade/shm/api.py and EVERY field valuation: api.ser(m) raises only outside the admitted domain and api.deser(api.ser(m)) == m "
-         "(74 verification conditions, all discharged). The pickle/orjson/pydantic based encodings (executor messages, reports, gateway JSON, JobInstance) are outside the verifier: "
+         "(148 verification conditions, all discharged). The pickle/orjson/pydantic based encodings (executor messages, reports, gateway JSON, JobInstance) are outside the verifier: "
          "bounded stand-in only (enumerated instances), never counted as proved.",
          PYVC_NOTE + "Assumed: int.to_bytes/from_bytes, ascii encode/decode and slice clamping as axiomatised in pyvc/bytesalg.py; pickle/cloudpickle/orjson/pydantic round-trip plain data."),
  "C18": ("proof", "contract-based deductive verification of JobRouter (pre/post, whole-view frames, ownership class invariant with ghost owners) by pyvc + z3",
@@ -41,6 +41,21 @@ BOUNDED = {
  "C19": "bounded: real TaskBuilder/JobBuilder on enumerated signatures, bound values and edge lists; persistence snapshots",
 }
 
+# properties decided by the bounded stand-in, with a PART of their chain under discharged contracts (the proved part is named; the level stays "exploration")
+MIXED = {
+ "C02": "Proved by pyvc+z3 (for all inputs): controller.act.act sends exactly the assignment's tasks to the assignment's worker and only transfers datasets into the assignment's host; notify.is_last_output_of. ",
+ "C03": "Proved by pyvc+z3: scheduler.core.has_awaitable / has_computable agree with their definitions over the whole State (the loop guard of controller.impl.run). ",
+ "C04": "Proved by pyvc+z3: notify.consider_purge purges a dataset only when no task that consumes it is still to run / running and it is not a requested output still to be fetched, and touches no other dataset; "
+        "notify.consider_fetch queues a fetch only for a requested output not yet fetched; notify.is_last_output_of (60 VCs). ",
+ "C06": "Proved by pyvc+z3: Listener._recv_one (malformed frames never escape, well-formed ones are acked once and returned), ReliableSender.send/ack/maybe_retry with the class invariant "
+        "(every unacknowledged message stays registered with its address, retries bounded by the budget, ack removes exactly that id; 192 VCs incl. loop invariants for every number of in-flight messages). ",
+ "C08": "Proved by pyvc+z3: shm Manager.__init__/add/purge/page_out(+callback)/page_in(+callback)/get/close_callback against contracts over the WHOLE dataset map with the ghost aggregate 'used' "
+        "(sum of in-memory sizes <= capacity preserved by every operation, nothing but the named key changes; 348 VCs). Assumed: Manager.page_out_at_least (6 of its 29 VCs time out) and the victim lottery. ",
+ "C09": "Proved by pyvc+z3: Manager.is_pageoutable/get/close_callback/purge/page_out callback - a dataset with a live reader is never chosen or unlinked, delayed purge happens at the last close (283 VCs). ",
+ "C19": "Proved by pyvc+z3: TaskBuilder.with_values, JobBuilder.with_node/with_edge/get_edge_errors against persistence and exact-error-list contracts (152 VCs). ",
+}
+
+
 def main():
     checks = []
     for pid in [f"C{i:02d}" for i in range(1, 20)]:
@@ -52,17 +67,20 @@ def main():
             cat, tech = "exploration", BOUNDED[pid]
             text = ("Bounded stand-in of the contract family (DESIGN 3.4): the property's clauses are evaluated as run-time contracts around the REAL functions over an exhaustively "
                     "enumerated space with the bound written into the evidence; labelled bounded, never counted as proved. " + tech)
-            note = ("Nothing is proved for this property yet (obligations=0 unless evidence says otherwise); trusted: the harness's fakes implement the assumed external contracts "
+            if pid in MIXED:
+                text = ("PART of the chain is under discharged contracts, the property as a whole is decided by the bounded stand-in. " + MIXED[pid] + text)
+                tech = "contract-based deductive verification of the named functions (pyvc + z3/cvc5) + " + tech
+            note = (("Proved part: see evidence.obligations; " if pid in MIXED else "Nothing is proved for this property (obligations=0): no contract within pyvc's reach carries it - the bounded stand-in decides; ") + "trusted: the harness's fakes implement the assumed external contracts "
                     "(executor contract / OS / zmq / NumPy); bounds as stated in evidence.coverage.bounded_standins[].bound.")
         checks.append({"property_id": pid, "quick_cmd": f"./check {pid} --tier quick", "thorough_cmd": f"./check {pid} --tier thorough",
-                       "evidence_file": f"evidence/{pid}.json", "replay_cmd_template": f"./check {pid} --replay {{path}}", "engine": "pyvc+rtc" if pid in CHECKS else "rtc",
+                       "evidence_file": f"evidence/{pid}.json", "replay_cmd_template": f"./check {pid} --replay {{path}}", "engine": "pyvc+rtc" if pid in CHECKS or pid in MIXED else "rtc",
                        "level_claimed": {"category": cat, "text": text, "design_ref": f"DESIGN.md section 5 ({pid})"}, "level_note": note, "technique": tech})
     done = {c["property_id"] for c in checks}
     na = [{"property_id": f"C{i:02d}", "reason": "check not built yet in this round (no technique switch intended)"} for i in range(1, 20) if f"C{i:02d}" not in done]
     m = {"version": 1, "setup_cmd": "./setup.sh",
          "hooks": {"guard": "EKW_VERIF", "enable": "no hooks in /repo: contracts are sidecars, fakes are injected by the harness process (DESIGN 8)", "baseline_off_cmd": "./run_baseline.sh",
                    "source_commits": [], "add_only": True},
-         "engines": [{"name": "pyvc", "path": "pyvc/", "serves_properties": sorted(CHECKS), "kind_free_text": "VC generator: symbolic execution of the real function ASTs against sidecar contracts, z3/cvc5 discharge"},
+         "engines": [{"name": "pyvc", "path": "pyvc/", "serves_properties": sorted(set(CHECKS) | set(MIXED)), "kind_free_text": "VC generator: symbolic execution of the real function ASTs against sidecar contracts, z3/cvc5 discharge"},
                      {"name": "rtc", "path": "pyvc/rtc.py + checks/*_bounded.py", "serves_properties": sorted(done), "kind_free_text": "run-time contract monitors and bounded enumerators around the real functions (stand-in, replay vehicle)"},
                      {"name": "ctrlx", "path": "checks/ctrlx.py", "serves_properties": ["C01", "C02", "C03", "C04"], "kind_free_text": "bounded schedule exploration of the real controller against a simulated cluster"}],
          "checks": checks,
